@@ -52,7 +52,14 @@ static SequenceControlSet *scs_p;   /* calloc'ed (a 200 kB static would be zero-
 #define scs (*scs_p)
 static EncodeContext ectx;
 static EbFifo fifo_in, fifo_out, fifo_rec;
+#ifdef SCS_STATIC
+/* typed static object: ~1 min of zero-initialisation in symbolic execution, but cheap field accesses --
+   the right trade for the queries that run all of copy_api_from_app/verify_settings on it */
+static SequenceControlSet scs_static;
+static void mk_scs(void) { scs_p = &scs_static; }
+#else
 static void mk_scs(void) { if (!scs_p) { scs_p = (SequenceControlSet *)calloc(1, sizeof(SequenceControlSet)); V_ASSUME(scs_p != NULL); } }
+#endif
 static EbComponentType *mk_handle(void) {
     mk_scs();
     comp.p_component_private = &H;
